@@ -98,6 +98,9 @@ def carrysave_adder(a, b, c, final_adder=ripple_add):
     a, b, c = libutils.match_bitwidth(a, b, c)
     partial_sum = a ^ b ^ c
     shift_carry = (a | b) & (a | c) & (b | c)
+    if len(a) == 1:
+        # no upper sum bits to add the carries to
+        return pyrtl.concat(pyrtl.Const(0, 1), shift_carry, partial_sum)
     return pyrtl.concat(final_adder(partial_sum[1:], shift_carry), partial_sum[0])
 
 
@@ -250,7 +253,13 @@ def _sparse_adder(wire_array_2, adder):
     for single_w_index in range(len(wire_array_2)):
         if len(wire_array_2[single_w_index]) == 2:  # Check if the two wire vectors overlap yet
             break
-        result.append(wire_array_2[single_w_index][0])
+        if wire_array_2[single_w_index]:
+            result.append(wire_array_2[single_w_index][0])
+        else:
+            result.append(pyrtl.Const(0, 1))  # no wire of this weight
+    else:
+        # no weight has two wires left, so there is nothing for the final adder to do
+        return pyrtl.concat_list(result)
 
     wires_to_zip = wire_array_2[single_w_index:]
     add_wires = tuple(itertools.zip_longest(*wires_to_zip, fillvalue=pyrtl.Const(0)))
